@@ -4,6 +4,7 @@
 
 mod common;
 mod dens;
+mod lemma1;
 mod props;
 mod script;
 mod sketchers;
